@@ -118,6 +118,37 @@ def main():
         cases = [c for c in cases if chk.args.only in c["name"]]
     res = run_cases(cases, "checks.c20:worker", chk.scratch, nproc=chk.args.nproc, timeout=200)
     res = [dict(status="WATCHDOG", where=[(r.get("_log_tail") or "")[-400:]], name=c["name"]) if (r.get("_watchdog") or "_died" in r or r.get("_error")) else r for c, r in zip(cases, res)]
+    # ---- failing combinations are reduced to their smallest failing sub-combination (pairs of a triple are re-run), so that the key names the options that
+    # interact, not a generic "combination" and not the random row
+    opt_by_name = {(smp, o[0]): o for smp in ("std", "ins") for o in opts[smp]}
+    single_v = {(c["sampler"], c["name"]): judge(r) for c, r in zip(cases, res) if len(c["members"]) == 1}
+    sub_cases = []
+    for c, r in zip(cases, res):
+        if len(c["members"]) == 3 and judge(r)[0] == "violation":
+            key = judge(r)[1]
+            if any(single_v.get((c["sampler"], m), (None, None))[1] == key for m in c["members"]):
+                continue
+            import itertools
+
+            for pair in itertools.combinations(c["members"], 2):
+                kw, rkw = {}, {}
+                for m in pair:
+                    _, k_, r_ = opt_by_name[(c["sampler"], m)]
+                    kw = merge(kw, k_) if kw is not None else None
+                    rkw = merge(rkw, r_) if rkw is not None else None
+                if kw is None or rkw is None:
+                    continue
+                sub_cases.append(dict(sampler=c["sampler"], name="+".join(pair), members=list(pair), kwargs=kw, run_kwargs=rkw, dims=c["dims"], seed=c["seed"], parent=c["name"],
+                                      outdir=os.path.join(chk.scratch, f"sub-{len(sub_cases)}"), watchdog=200, _timeout=300))
+    sub_res = run_cases(sub_cases, "checks.c20:worker", chk.scratch, nproc=chk.args.nproc, timeout=200) if sub_cases else []
+    reduced = {}
+    for sc, sr in zip(sub_cases, sub_res):
+        if sr.get("_watchdog") or "_died" in sr or sr.get("_error"):
+            continue
+        v, key, _ = judge(sr)
+        if v == "violation":
+            reduced.setdefault((sc["sampler"], sc["parent"], key), sc["members"])
+    chk.count("combination_reduction_runs", len(sub_cases))
     single_fail = {}
     table = {}
     for c, r in zip(cases, res):
@@ -143,7 +174,8 @@ def main():
             if len(c["members"]) > 1:
                 same = [m for m in c["members"] if single_fail.get((c["sampler"], m)) == key]
                 # a failure that no member shows on its own is keyed by its call site (exception type @ innermost nessai function), not by the random row
-                culprit = ALIAS.get(same[0], same[0]) if same else "option-combination"
+                mem = reduced.get((c["sampler"], c["name"], key), c["members"])
+                culprit = ALIAS.get(same[0], same[0]) if same else "+".join(sorted(mem))
             chk.violation(f"C20:{c['sampler']}:{culprit}:{key}", f"{c['sampler']} option case {c['name']} kwargs={c['kwargs']} run_kwargs={c['run_kwargs']}: {detail}", small)
     chk.extra["verdict_table"] = dict(sorted(table.items())) if chk.quick else {k: v for k, v in sorted(table.items()) if v != "held"}
     chk.extra["budgets"] = "per run: latent batches per population 1500 (nominal <= 100), INS draw batches per draw 500 (nominal 1-2), standard iterations 80 x nlive (nominal 5-8 x nlive), " \
